@@ -274,15 +274,14 @@ def mApp : PkgRun := ⟨0, [⟨5, 1, 0, [.resultOf 3, .known 2]⟩, ⟨6, 4, 1, 
 
 /-- **invocation_order_witness**: why the packages are generated imported-first (C08 `order_imports_first`,
 seeded change R-C07-B): with every derived.gen.go absent, generating index before app leaves both
-complete in one run; generating app first leaves app's derived.gen.go without deriveEqual (the run
-still succeeds, because deriveHash was generated), so that one run does not suffice. -/
+complete in one run; generating app first ends the run at app, whose deriveEqual never gets its argument
+type (since 5fa8037, F131, that is a failure although deriveHash was generated; before, the run went on
+and left app's derived.gen.go without deriveEqual). -/
 theorem invocation_order_witness :
     invocation mGen [] [mIndex, mApp] =
       [(1, .ok (some [⟨3, 3, [2], some 2⟩, ⟨2, 2, [7], some 2⟩])),
        (0, .ok (some [⟨5, 1, [2, 2], some 0⟩, ⟨6, 4, [2], some 9⟩]))] ∧
-    invocation mGen [] [mApp, mIndex] =
-      [(0, .ok (some [⟨6, 4, [2], some 9⟩])),
-       (1, .ok (some [⟨3, 3, [2], some 2⟩, ⟨2, 2, [7], some 2⟩]))] := by
+    invocation mGen [] [mApp, mIndex] = [(0, .error "cannot generate")] := by
   constructor <;> rfl
 
 /-- non-vacuity of `regenIn_congr`: app's first pass does not care what else the index file declared -/
